@@ -47,7 +47,7 @@ for _ in range(400):
     LI = "[" + ", ".join(lval(v) for v in iv) + "]"
     LO = "[" + ", ".join(lval(v) for v in ov) + "]"
     cases.append(f"#eval IO.println (showR (inputValues (α := Rat) {LI}))"); expected.append(run(lambda: e.input_values))
-    cases.append(f"#eval IO.println (showR (outputValues (α := Rat) {LO}))"); expected.append(run(lambda: e.output_values))
+    cases.append(f"#eval IO.println (showR (outputValues (α := Rat) {LI} {LO}))"); expected.append(run(lambda: e.output_values))
     cases.append(f"#eval IO.println (showR (allValues (α := Rat) {LI} {LO}))"); expected.append(run(lambda: e.values))
     # externals directly
     tup = tuple(iv)
